@@ -195,7 +195,7 @@ def coqc_flags() -> list[str]:
 
 def coq_eval(name: str, text: str, timeout: int = 300) -> str:
     """Compile one generated .v file in the scratch dir; return coqc's stdout. Raises BrokenTie."""
-    d = SCRATCH / name
+    d = SCRATCH / f'{name}_{os.getpid()}'
     if d.exists():
         shutil.rmtree(d)
     d.mkdir(parents=True)
